@@ -5,6 +5,7 @@ package main
 import (
 	"encoding/json"
 	"fmt"
+	"net/url"
 	"os"
 	"path/filepath"
 	"sort"
@@ -35,7 +36,11 @@ func init() { register("C10", runC10) }
 //	                  delay is BELOW the repository layer); <first> is authenticated (GET /api/v1/access) and, once its
 //	                  statement waits, <second> on GET /api/v1/access, on the admin route and on the websocket check,
 //	                  each from its own goroutine; then the pool is released.  result "slw:..." shaped like "ovl:...".
-//	A=<value>         (only as the first element) the admin token the case is configured with
+//	A<src>=<value>    (only as the first element) the admin token the case is configured with, percent-encoded;
+//	                  <src> = e: through the environment (BHS_HTTP_AUTH_TOKEN), f: through a config file (-C), in both
+//	                  cases the real SetDefaults + LoadFlags + Load run in a child process and the stack gets the value
+//	                  they yield; d (or nothing): written into the AppConfig directly.  Credentials named "adm" always
+//	                  present the CONFIGURED literal.
 //	X                 restart: close the database, reopen the same SQLite file, rebuild services + engine
 //	Cf:<cred>:<name>  like C, but the COMMIT of the INSERT fails (SQLite commit hook turns it into a ROLLBACK)
 //	Rf:<cred>:<name>  like R, but the COMMIT of the DELETE fails
@@ -71,6 +76,7 @@ type c10State struct {
 	slow       int        // operations / cases that ran into a deadline so far in this run
 	pause      *tokPauser // scheduling point in the decorated token repository (c10_engine.go)
 	adminCfg   string     // configured admin token of this case ("" = the default of the configuration)
+	adminSrc   string     // how it is configured: "e" environment, "f" file, "d" directly
 }
 
 func c10Unknown(name string) string {
@@ -184,7 +190,15 @@ func isAlnum32(s string) bool {
 }
 
 func (st *c10State) open(dir string) error {
-	s, err := NewStack(StackOpts{Dir: dir, UseAuth: true, AdminToken: st.adminCfg})
+	var mutate func(*config.AppConfig)
+	if st.adminCfg != "" {
+		eff, ok := effectiveAdminToken(st.c.Out, st.adminCfg, st.adminSrc)
+		if !ok {
+			return fmt.Errorf("CONFIG-LOAD-FAILED %s", eff)
+		}
+		mutate = func(cf *config.AppConfig) { cf.HTTP.AuthToken = eff }
+	}
+	s, err := NewStack(StackOpts{Dir: dir, UseAuth: true, Mutate: mutate})
 	if err != nil {
 		return err
 	}
@@ -205,6 +219,9 @@ func (st *c10State) open(dir string) error {
 	}
 	st.fs = fs
 	st.admin = s.Cfg.HTTP.AuthToken
+	if st.adminCfg != "" {
+		st.admin = st.adminCfg // what the operator configured is what is presented
+	}
 	return nil
 }
 
@@ -246,7 +263,7 @@ func (st *c10State) op(o string, dir string) string {
 		if p[0] == "Rf" {
 			atomic.StoreInt32(&st.failCommit, 1)
 		}
-		code, _ := st.do("DELETE", "/api/v1/access/"+st.resolve(p[2]), st.resolve(p[1]))
+		code, _ := st.do("DELETE", "/api/v1/access/"+url.PathEscape(st.resolve(p[2])), st.resolve(p[1]))
 		atomic.StoreInt32(&st.failCommit, 0)
 		switch {
 		case code == 200:
@@ -277,7 +294,7 @@ func (st *c10State) op(o string, dir string) string {
 		case <-time.After(waitDeadline):
 			inflight = "TIMEOUT"
 		}
-		code, _ := st.do("DELETE", "/api/v1/access/"+tok, st.admin)
+		code, _ := st.do("DELETE", "/api/v1/access/"+url.PathEscape(tok), st.admin)
 		st.pause.disarm()
 		close(release)
 		if inflight == "" {
@@ -486,6 +503,11 @@ func (st *c10State) op(o string, dir string) string {
 	return "BAD-OP"
 }
 
+// "A=", "Ae=", "Af=", "Ad=": the configuration head of a case
+func c10IsHead(o string) bool {
+	return strings.HasPrefix(o, "A=") || (len(o) >= 3 && o[0] == 'A' && o[2] == '=' && strings.ContainsRune("efd", rune(o[1])))
+}
+
 func c10Names(ops []string) []string {
 	set := map[string]bool{}
 	for _, o := range ops {
@@ -507,9 +529,10 @@ func c10Names(ops []string) []string {
 func (st *c10State) runCase(input string, idx int) (string, error) {
 	ops := strings.Split(input, ";")
 	// optional head "A=<value>": the admin token this case is configured with (no space, ';' or ':')
-	st.adminCfg = ""
-	if len(ops) > 0 && strings.HasPrefix(ops[0], "A=") {
-		st.adminCfg = ops[0][2:]
+	st.adminCfg, st.adminSrc = "", ""
+	if len(ops) > 0 && c10IsHead(ops[0]) {
+		i := strings.Index(ops[0], "=")
+		st.adminSrc, st.adminCfg = ops[0][1:i], pctDecode(ops[0][i+1:])
 		ops = ops[1:]
 	}
 	st.bind = map[string]string{}
@@ -517,6 +540,10 @@ func (st *c10State) runCase(input string, idx int) (string, error) {
 	st.real = st.c.Thorough() || st.c.Only != "" || idx%8 == 0 || strings.Contains(input, "Wr:")
 	dir := st.c.TmpDir(fmt.Sprintf("c10-%d", idx))
 	if err := st.open(dir); err != nil {
+		if strings.HasPrefix(err.Error(), "CONFIG-LOAD-FAILED") {
+			// the service's own configuration loading refused / mangled the configured value: an observable
+			return strings.ReplaceAll(err.Error(), " ", "_"), nil
+		}
 		return "", err
 	}
 	defer func() {
@@ -700,14 +727,19 @@ func runC10(c *Ctx) error {
 			c.Count("ws:token-check-only")
 		}
 		for _, o := range strings.Split(input, ";") {
-			if strings.HasPrefix(o, "A=") {
-				c.Count(fmt.Sprintf("admin-token:len%03d", len(o)-2))
+			if c10IsHead(o) {
+				v := pctDecode(o[strings.Index(o, "=")+1:])
+				c.Count(fmt.Sprintf("admin-token:len%03d", len(v)))
+				if strings.Contains(v, "$") {
+					c.Count("admin-token:with-dollar")
+				}
+				c.Count("admin-token:source-" + o[1:strings.Index(o, "=")])
 				continue
 			}
 			k := strings.SplitN(o, ":", 2)[0]
 			c.Count("op:" + k)
 		}
-		if !strings.HasPrefix(input, "A=") {
+		if !c10IsHead(strings.SplitN(input, ";", 2)[0]) {
 			c.Count("admin-token:default")
 		}
 		c.Count(fmt.Sprintf("len:%02d-%02d", (len(strings.Split(input, ";"))-1)/10*10+1, (len(strings.Split(input, ";"))-1)/10*10+10))
@@ -744,17 +776,20 @@ func runC10(c *Ctx) error {
 	}
 	// the admin token is configuration: the same histories with admin tokens shorter / as long as / longer than
 	// the issued tokens and with non-alphanumeric characters (the model is parametric in the admin token)
+	prewarmAdminTokens(c.Out)
 	for _, adm := range adminTokenVariants() {
-		for _, h := range []string{
+		for hi, h := range []string{
 			"H:adm;W:adm;C:adm:a;H:a;W:a;X;H:adm;H:a;R:adm:a;H:a;R:adm:adm;H:adm;W:adm;H:adm^;H:adm-;W:adm^",
 			"C:adm:a;OVL:a:adm;OVL:adm:a;OVL:u1:adm;SLW:a:adm;SLW:adm:a;SLW:u1:a;RACE:a;H:adm;Cf:adm:b;Rf:adm:a;Wr:adm;Wr:adm-",
 		} {
-			if err := one("A="+adm+";"+h, "admin-variant-fixed"); err != nil {
+			src := []string{"e", "f"}[hi%2]
+			if err := one("A"+src+"="+pctEncode(adm)+";"+h, "admin-variant-fixed"); err != nil {
 				return err
 			}
 		}
 		for i, n := 0, c.Pick(3, 40); i < n; i++ {
-			if err := one("A="+adm+";"+c10Gen(c, 25), "admin-variant-random"); err != nil {
+			src := []string{"f", "e", "d"}[i%3]
+			if err := one("A"+src+"="+pctEncode(adm)+";"+c10Gen(c, 25), "admin-variant-random"); err != nil {
 				return err
 			}
 		}
